@@ -166,6 +166,7 @@ def parse_output(out):
     i = out.find('Error: ')
     if i >= 0:
         r.cex = out[i:i + 6000]
+        r.cex_full = out[i:]
     # PrintT payloads: lines that are TLA+ strings or tuples
     for line in out.splitlines():
         if line.startswith('"') and line.endswith('"'):
